@@ -11,6 +11,8 @@ from fractions import Fraction as Fr
 
 import torch
 
+from ..market import outside_price_domain
+
 from ..core import History, Inconclusive, Stats, Violation, thash
 from ..gen import COSTS, STOCK_KINDS, bs_ok, gen_clauses, gen_derivative, gen_hedger, gen_primary
 from ..world import DT, HAS_VOL, OPTION_KINDS, World, abstract_state, cast_module_outputs
@@ -333,6 +335,10 @@ def _execute(program, stats, hist):
                     else:
                         rep = h.compute_portfolio(d, hedge=hedge)
             except Exception as e:
+                if outside_price_domain(world):
+                    stats.ambiguous_skipped += 1   # a non-positive price: the hedger's log / Black-Scholes inputs are undefined (C18)
+                    hist.add(op=name, skipped="non-positive price")
+                    continue
                 raise Violation(ID, "op_raised", "%s:%s" % (site, type(e).__name__), {"error": repr(e), "op": op}, seq)
             finally:
                 torch.set_grad_enabled(True)
